@@ -61,12 +61,8 @@ PROPS = {
         note="Out: %-based results (fmod), correct rounding of decimal literals and shortest printing (Rust dec2flt/flt2dec, trusted).",
         ref="DESIGN.md section 6 C06, section 11"),
     "C07": dict(
-        text="Bounded model checking of the object layer model: real ObjectData values of 3 layers with symbolic per-layer entries "
-             "(absent/default/hidden/forced/Removed marker) for two names; find_field, has_field (super lookup from every start "
-             "layer) and has_visible_field are compared with the specification's layer semantics. Thorough tier: 4 layers, "
-             "extend_object / objectRemoveKey / objectHasEx lemmas and get_fields_order templates (40 GB attempts).",
-        note="Out: evaluation of field bodies (self/super inside expressions, +: fields, object asserts) - interpreter loop; "
-             "get_fields_order (sorted field list, resolved visibility) is not decided in the quick tier.",
+        text="Bounded model checking of the object layer model: real ObjectData values of 3 layers with symbolic per-layer entries (absent/default/hidden/forced/Removed marker) for two names; find_field, has_field (super lookup from every start layer) and has_visible_field are compared with the specification's layer semantics; extend_object (the + operator) keeps the layer order Y.self, X.self, X.super, every layer's asserts, and marks the result unchecked whenever any layer carries an assert; the `in` operator finds hidden fields.",
+        note="Out: evaluation of field bodies (self/super inside expressions, +: fields, object asserts) - interpreter loop; extend_object with fields, objectRemoveKey, objectHasEx, 4-layer lookups and get_fields_order (sorted field list, resolved visibility) are attempt-tier harnesses without a verdict.",
         ref="DESIGN.md section 6 C07, section 11"),
     "C08": dict(
         text="Bounded model checking of the comparison state machine, which is written inline in Evaluator::run: ONE iteration "
